@@ -722,7 +722,12 @@ class Report:
                 "hand-written Gallina model (coq/Model) tied to /repo by the correspondence check",
                 "extraction ExtrOcamlBasic + ocaml/run_model.ml driver, OCaml 4.13.1",
                 "Rust harness (harness/), Python generator/comparator (tools/sl)",
-            ],
+            ] + (["tools/rs2v.py: translator of src/bi.rs to Gallina (parser, table of interpreted primitives: accessors, "
+                  "check_unit_interval = Num.in_unit, check_is_one / ulps_eq!(e,1.0) = Num.is_one, ulps_eq!(e,0.0) = Num.is_zero)"]
+                 if self.pid in GEN_THEOREMS else []) +
+                (["harness/rat: exact rationals with a NaN as num_traits::Float / approx::UlpsEq (semantics of coq/Model/Num.v "
+                  "by construction), the element type of the exact-rational streams q:*"]
+                 if any(k.startswith("q:") for k in (streams or {})) else []),
             "theorems": proof.get("theorems", []),
             "evaluations": n_eval,
             "distinct_nontrivial": distinct,
